@@ -20,6 +20,7 @@
  R11 next node    : corresp_next_node walks over every passive line element and only those (truth table).
  R12 checks/trims : each sanity test follows the code that fills its list; both ends of a service route list are trimmed independently.
  R13 corrected routes: the service file is built from the result of correct_xls_route_list, after it ran.
+ R14 link identity  : Link.__eq__ compares the two end cities (either orientation) and nothing else.
 """
 import ast
 import re
@@ -602,5 +603,34 @@ def r13_corrected_routes(ctx):
               'untranslated', det)
     ctx.need('R13.corrected-routes', 1)
 
+
+
+def r14_link_identity(ctx):
+    """R14: a link of the Links sheet is identified by its two end cities, in either orientation, and by nothing else: Link.__eq__
+    compares from_city / to_city straight and crossed - this is what makes a link listed twice (the duplicate the conversion must
+    reject, parallel links being unsupported) equal to itself"""
+    repo = ctx.repo
+    link = repo.module(CV).classes.get('Link')
+    eq = link.methods.get('__eq__') if link is not None else None
+    if eq is None:
+        raise AnchorMissing('convert.Link.__eq__')
+    o = eq.params[1]
+    pairs = set()
+    other = []
+    for c in [x for x in ast.walk(eq.node) if isinstance(x, ast.Compare) and len(x.ops) == 1]:
+        le, ri = c.left, c.comparators[0]
+        if isinstance(le, ast.Attribute) and isinstance(ri, ast.Attribute) and isinstance(c.ops[0], ast.Eq) and \
+                {ast.unparse(le.value), ast.unparse(ri.value)} == {'self', o}:
+            pairs.add(frozenset((le.attr, ri.attr)) if le.attr != ri.attr else (le.attr,))
+            if {le.attr, ri.attr} - {'from_city', 'to_city'}:
+                other.append(ast.unparse(c))
+        else:
+            other.append(ast.unparse(c))
+    want = {('from_city',), ('to_city',), frozenset(('from_city', 'to_city'))}
+    ctx.check('R14.link-identity', site(eq), pairs == want and not other, key(eq, 'identity'),
+              'two link rows are not equal exactly when they join the same two cities (in either orientation): a link listed twice would '
+              'no longer be rejected as a duplicate and the second fibre pair be left unwired', f'{sorted(map(str, pairs))} {other}')
+    ctx.need('R14.link-identity', 1)
+
 RULES = [('R1.headers', r1_headers), ('R2.mirrors', r2_mirrors), ('R3.defaulting', r3_defaulting), ('R4.units', r4_units),
-         ('R5.errors', r5_errors), ('R6.rows', r6_rows), ('R7.node-types', r7_node_types), ('R8.cable-names', r8_cable_names), ('R9.ila-degree', r9_ila_degree), ('R10.route-index', r10_route_index), ('R11.next-node', r11_next_node), ('R12.checks-and-trims', r12_checks_and_trims), ('R13.corrected-routes', r13_corrected_routes)]
+         ('R5.errors', r5_errors), ('R6.rows', r6_rows), ('R7.node-types', r7_node_types), ('R8.cable-names', r8_cable_names), ('R9.ila-degree', r9_ila_degree), ('R10.route-index', r10_route_index), ('R11.next-node', r11_next_node), ('R12.checks-and-trims', r12_checks_and_trims), ('R13.corrected-routes', r13_corrected_routes), ('R14.link-identity', r14_link_identity)]
